@@ -321,6 +321,19 @@ pub fn exec_case_main() -> i32 {
     }
 }
 
+/// Binary used for worker / exec-case subprocesses (None = this executable).  The thorough
+/// tier switches it to the build without debug assertions and overflow checks for its
+/// second batch.
+static EXE_OVERRIDE: std::sync::Mutex<Option<std::path::PathBuf>> = std::sync::Mutex::new(None);
+
+fn child_exe() -> std::path::PathBuf {
+    EXE_OVERRIDE.lock().unwrap().clone().unwrap_or_else(|| std::env::current_exe().unwrap())
+}
+
+pub fn fast_bin_path() -> std::path::PathBuf {
+    std::env::var("VERIF_FAST_BIN").map(std::path::PathBuf::from).unwrap_or_else(|_| std::path::PathBuf::from(format!("{}/target/fast/cfbsim", VERIF_DIR)))
+}
+
 pub struct ExecResult {
     pub sigs: Vec<String>,
     pub msgs: Vec<String>,
@@ -331,7 +344,7 @@ pub struct ExecResult {
 /// Run a case in a fresh process (with a wall-clock timeout).  A process that
 /// dies or times out yields the signature `abort@process` / `hang@process`.
 pub fn exec_case_subprocess(case: &Case, ignore_known: bool, timeout_s: u64) -> ExecResult {
-    let exe = std::env::current_exe().unwrap();
+    let exe = child_exe();
     let mut cmd = Command::new(exe);
     cmd.arg("exec-case").stdin(Stdio::piped()).stdout(Stdio::piped()).stderr(Stdio::null());
     if ignore_known {
@@ -573,7 +586,7 @@ pub struct RunResult {
 }
 
 fn spawn_worker(def: &CheckDef, tier: Tier, seed: u64, shard: u64, w: u64, start: u64, end: Option<u64>) -> Child {
-    let exe = std::env::current_exe().unwrap();
+    let exe = child_exe();
     let mut cmd = Command::new(exe);
     cmd.args(["worker", "--check", def.id, "--tier", tier.name(), "--seed", &seed.to_string(), "--shard", &format!("{}/{}", shard, w), "--start", &start.to_string()]);
     if let Some(e) = end {
@@ -753,7 +766,9 @@ fn short_hash(s: &str) -> String {
 pub fn write_replay(dir: &str, def_id: &str, seed: u64, idx: u64, v: &Violation, case: &Case, trace: &str) -> String {
     let _ = std::fs::create_dir_all(dir);
     let path = format!("{}/{}-{}-{}.json", dir, def_id, seed, short_hash(&format!("{}{}", v.sig(), case.to_json())));
+    let profile = if EXE_OVERRIDE.lock().unwrap().is_some() { "fast" } else { "checked" };
     let doc = json!({
+        "profile": profile,
         "property": def_id, "rule": v.rule, "site": v.site, "sig": v.sig(), "message": v.msg,
         "seed": seed, "case_index": idx, "trace_hash": trace, "case": case.to_json(),
     });
@@ -780,6 +795,14 @@ pub fn replay_main(path: &str) -> i32 {
         }
     };
     let want = v["sig"].as_str().unwrap_or("").to_string();
+    if v["profile"].as_str() == Some("fast") {
+        let fb = fast_bin_path();
+        if !fb.exists() {
+            eprintln!("this replay needs the build without debug assertions: cd /verif/sim && cargo build --profile fast");
+            return 2;
+        }
+        *EXE_OVERRIDE.lock().unwrap() = Some(fb);
+    }
     let r = exec_case_subprocess(&case, true, 600);
     println!("recorded: sig={} trace_hash={}", want, v["trace_hash"].as_str().unwrap_or(""));
     for (s, m) in r.sigs.iter().zip(r.msgs.iter()) {
@@ -877,6 +900,22 @@ pub fn run_main(args: &[String]) -> i32 {
     let res = run_cases(&def, tier, seed, nworkers, end);
     let batch_wall = t0.elapsed().as_secs_f64();
 
+    // 2b. thorough tier: a second, smaller batch on the build WITHOUT debug assertions and
+    // overflow checks (what users of a release build run: arithmetic wraps, debug_assert! is
+    // gone, so the same defect shows as silent corruption, a hang or a huge allocation)
+    let mut fast_summary = json!(null);
+    let mut fast_violations: Vec<(u64, Violation, Case)> = vec![];
+    if tier == Tier::Thorough && end.is_none() && fast_bin_path().exists() {
+        let total = (def.cases)(tier);
+        let n = (total / 5).max(1);
+        *EXE_OVERRIDE.lock().unwrap() = Some(fast_bin_path());
+        let r2 = run_cases(&def, tier, seed, nworkers, Some(n));
+        *EXE_OVERRIDE.lock().unwrap() = None;
+        println!("fast-profile batch: cases={} violations={}", r2.agg.cases, r2.violations.len());
+        fast_summary = json!({"cases": r2.agg.cases, "sub_runs": r2.agg.stats.sub_runs, "violations": r2.violations.len(), "binary": fast_bin_path().display().to_string()});
+        fast_violations = r2.violations;
+    }
+
     // 3. violations: one report per distinct signature
     let mut by_sig: BTreeMap<String, (u64, Violation, Case, u64)> = BTreeMap::new();
     for (idx, v, c) in res.violations.iter() {
@@ -913,6 +952,38 @@ pub fn run_main(args: &[String]) -> i32 {
         println!("VIOLATION property={} replay={}", def.id, path);
         reported.push(json!({"sig": sig, "cases": count, "replay": path, "message": v2.msg}));
         exit = 1;
+    }
+    if !fast_violations.is_empty() {
+        let mut fast_by_sig: BTreeMap<String, (u64, Violation, Case, u64)> = BTreeMap::new();
+        for (idx, v, c) in fast_violations.iter() {
+            let e = fast_by_sig.entry(v.sig()).or_insert((*idx, v.clone(), c.clone(), 0));
+            e.3 += 1;
+        }
+        *EXE_OVERRIDE.lock().unwrap() = Some(fast_bin_path());
+        for (sig, (idx, v, case, count)) in fast_by_sig.iter().take(8) {
+            if by_sig.contains_key(sig) {
+                continue; // already reported from the checked build
+            }
+            let r0 = exec_case_subprocess(case, true, 600);
+            if !r0.sigs.iter().any(|s| s == sig) {
+                eprintln!("HARNESS ERROR: fast-profile violation {} of case {} does not reproduce (observed {:?})", sig, idx, r0.sigs);
+                harness_error = true;
+                continue;
+            }
+            let process_level = sig.ends_with("@process");
+            let small = if process_level { case.clone() } else { minimise(case, sig, min_budget) };
+            let r1 = exec_case_subprocess(&small, true, 600);
+            let (final_case, r) = if r1.sigs.iter().any(|s| s == sig) { (small, r1) } else { (case.clone(), r0) };
+            let msg = r.sigs.iter().zip(r.msgs.iter()).find(|(s, _)| *s == sig).map(|(_, m)| m.clone()).unwrap_or(v.msg.clone());
+            let mut v2 = v.clone();
+            v2.msg = format!("[build without debug assertions] {}", msg);
+            let path = write_replay(&replay_dir, def.id, seed, *idx, &v2, &final_case, &r.trace);
+            println!("violation sig={} cases={} first_case={} ops={} :: {}", sig, count, idx, final_case.ops.len(), v2.msg);
+            println!("VIOLATION property={} replay={}", def.id, path);
+            reported.push(json!({"sig": sig, "cases": count, "replay": path, "message": v2.msg, "profile": "fast"}));
+            exit = 1;
+        }
+        *EXE_OVERRIDE.lock().unwrap() = None;
     }
     for h in res.agg.harness_errors.iter().take(5) {
         eprintln!("HARNESS ERROR: {}", &h[..h.len().min(600)]);
@@ -963,6 +1034,7 @@ pub fn run_main(args: &[String]) -> i32 {
             "known_finding_hits": st.known_hits,
             "known_findings": known_lines,
             "reported": reported,
+            "fast_profile_batch": fast_summary,
             "regression_witnesses_replayed": regress_n,
             "regression_witnesses_failing": regress_fail,
             "real_vs_stub": checks::REAL_VS_STUB,
